@@ -622,11 +622,21 @@ def find_elem(root: Dict[str, Any], path: List[str]) -> Optional[Dict[str, Any]]
     return cur
 
 
+_FLAGS: Dict[str, bool] = {}
+
+
+def sdk_flags() -> Dict[str, bool]:
+    if not _FLAGS:
+        _FLAGS.update(c10_translate.probe_update_from(C.REPO))
+    return _FLAGS
+
+
 def in_tie_scope(R: Dict[str, Any], snapshot: List[Any]) -> bool:
-    """Requests on which update_from meets a class change *below* the addressed node raise out of update_nss_from after a
+    """(Only on a tree whose update_nss_from does not replace class-changed children, i.e. without C12's repair.)
+    Requests on which update_from meets a class change *below* the addressed node raise out of update_nss_from after a
     partial, dict-order dependent mutation (known finding http:PUT:nested-class-change).  The model only approximates the
     partial state, so the correspondence generator skips them (they are exercised by the oracle and the finding's replay)."""
-    if R["m"] != "PUT" or not isinstance(R["body"], dict):
+    if R["m"] != "PUT" or not isinstance(R["body"], dict) or sdk_flags()["classChangeReplaces"]:
         return True
     segs = R["segs"]
     if len(segs) >= 2 and segs[0] == "submodels":
@@ -827,6 +837,7 @@ class OracleRun:
         self.rng = rng
         self.trace: List[Dict[str, Any]] = []
         self.fb = file_backed
+        self.clashed: set = set()       # submodels that received a PUT changing the class of a nested element
 
     def close(self):
         self.srv.close()
@@ -857,9 +868,18 @@ class OracleRun:
         return ACCEPTS[acc][1] == "json"
 
     # -- the clauses
+    def classify_payload(self, where: str, i: str, got, want, what: str) -> C.Failing:
+        """a payload that differs from the reference repository: name the recorded defect classes precisely"""
+        if got is not None and norm(zero_quals(got)) == norm(zero_quals(want)):
+            return self.fail("http:PUT:qualifier-value-not-replaced", f"after a PUT the qualifiers below {i!r} keep their old values", got, want)
+        if i in self.clashed:
+            return self.fail("http:PUT:nested-class-change", f"after a PUT that changes the class of a nested element, {i!r} is not the replacement", got, want)
+        return self.fail(where, what, got, want)
+
     def check_read(self, kind, i) -> Optional[C.Failing]:
         acc = self.acc()
-        out = self.send(mk_req("GET", [TOP[kind], self.seg(i)], acc))
+        core = kind != "shell" and self.rng.random() < 0.15
+        out = self.send(mk_req("GET", [TOP[kind], self.seg(i)], acc, level="core" if core else None))
         want = self.ref.get(kind, i)
         if out[0] != "resp":
             return self.fail(f"http:GET:{kind}:crash", f"GET {kind} {i!r} raised {out[1]}", out)
@@ -870,13 +890,18 @@ class OracleRun:
         if out[1] != 200:
             return self.fail(f"http:GET:{kind}:stored-not-200", f"GET of stored {kind} {i!r} answered {out[1]}", out, 200)
         got = self.payload_of(out)
+        if core:
+            if norm(got) != norm(strip_abs(want)):
+                if not self.is_json(acc) and norm(zero_quals(got)) == norm(zero_quals(want)) and norm(want) != norm(strip_abs(want)):
+                    return self.fail("http:GET:level-core:xml-not-stripped", f"GET {kind} {i!r}?level=core with an XML Accept returns the full object", got, strip_abs(want))
+                if norm(zero_quals(got)) == norm(zero_quals(strip_abs(want))) or norm(zero_quals(got)) == norm(zero_quals(want)):
+                    return None     # judged by the un-stripped read
+                return self.classify_payload(f"http:GET:{kind}:core-payload", i, got, strip_abs(want), f"GET {kind} {i!r}?level=core differs from the stripped reference object")
+            return None
         if norm(got) != norm(want):
             if got is not None and got.get("id") != i:
                 return self.fail(f"http:GET:{kind}:filed-under-foreign-id", f"{kind} read under {i!r} reports id {got.get('id')!r}", got, want)
-            if kind == "sm" and got is not None and norm(dict(got, root=dict(got["root"], q=[]))) == norm(dict(want, root=dict(want["root"], q=[]))) \
-                    and sorted(t for t, _ in got["root"]["q"]) == sorted(t for t, _ in want["root"]["q"]):
-                return self.fail("http:PUT:qualifier-value-not-replaced", f"after PUT the qualifiers of submodel {i!r} keep their old values", got, want)
-            return self.fail(f"http:GET:{kind}:payload", f"GET {kind} {i!r} differs from the reference repository", got, want)
+            return self.classify_payload(f"http:GET:{kind}:payload", i, got, want, f"GET {kind} {i!r} differs from the reference repository")
         return None
 
     def check_listing(self, kind) -> Optional[C.Failing]:
@@ -890,6 +915,10 @@ class OracleRun:
             ids_got, ids_want = sorted(x.get("id") for x in got), sorted(x["id"] for x in want)
             if ids_got != ids_want:
                 return self.fail(f"http:LIST:{kind}:members", f"listing of {kind} shows ids {ids_got}, the repository holds {ids_want}", ids_got, ids_want)
+            if sorted(json.dumps(norm(zero_quals(x)), sort_keys=True) for x in got) == sorted(json.dumps(norm(zero_quals(x)), sort_keys=True) for x in want):
+                return self.fail("http:PUT:qualifier-value-not-replaced", f"after a PUT the qualifiers in the listing of {kind} keep their old values", got, want)
+            if self.clashed:
+                return self.fail("http:PUT:nested-class-change", f"after a PUT that changes the class of a nested element the listing of {kind} is not the replacement", got, want)
             return self.fail(f"http:LIST:{kind}:payload", f"listing of {kind} differs from the reference repository", got, want)
         # paging: following the cursor with a random limit > 0 visits every element exactly once
         limit = self.rng.choice([1, 2, 3])
@@ -923,12 +952,14 @@ class OracleRun:
         for path, want in walk(sm["root"], []):
             out = self.send(mk_req("GET", ["submodels", self.seg(i), "submodel-elements", ".".join(path)], self.acc()))
             if out[0] != "resp" or out[1] != 200:
+                if i in self.clashed:
+                    return self.fail("http:PUT:nested-class-change", f"after a PUT that changes the class of a nested element, {'.'.join(path)} of {i!r} answered {out[:2]}", out, 200)
                 return self.fail("http:GET:elem:stored-not-200", f"element {'.'.join(path)} of {i!r} answered {out[:2]}", out, 200)
             got = self.payload_of(out)
             if norm(got) != norm(want):
                 if got is not None and got.get("ids") != path[-1]:
                     return self.fail("http:GET:elem:filed-under-foreign-idshort", f"element read under {'.'.join(path)} reports idShort {got.get('ids')!r}", got, want)
-                return self.fail("http:GET:elem:payload", f"element {'.'.join(path)} of {i!r} differs from the reference repository", got, want)
+                return self.classify_payload("http:GET:elem:payload", i, got, want, f"element {'.'.join(path)} of {i!r} differs from the reference repository")
         return None
 
     def sweep(self) -> Optional[C.Failing]:
@@ -950,8 +981,22 @@ class OracleRun:
     def op(self, op: List[Any]) -> Optional[C.Failing]:
         k = op[0]
         rng = self.rng
+        if k == "read":
+            # explicit probe: ["read", kind, id, accept index, level] — deterministic (used by recorded cases)
+            _, kind, i, acc, level = op
+            out = self.send(mk_req("GET", [TOP[kind], b64(i)], acc, level=level))
+            want = self.ref.get(kind, i)
+            if out[0] != "resp" or want is None or out[1] != 200:
+                return None if out[0] == "resp" else self.fail(f"http:GET:{kind}:crash", f"GET {kind} {i!r} raised {out[1]}", out)
+            got = self.payload_of(out)
+            exp = strip_abs(want) if level == "core" else want
+            if norm(got) != norm(exp):
+                if level == "core" and not self.is_json(acc) and norm(got) == norm(want):
+                    return self.fail("http:GET:level-core:xml-not-stripped", f"GET {kind} {i!r}?level=core with an XML Accept returns the full object", got, exp)
+                return self.classify_payload(f"http:GET:{kind}:payload", i, got, exp, f"GET {kind} {i!r} differs from the reference repository")
+            return None
         if k == "create":
-            _, kind, o = op
+            kind, o = op[1], op[2]
             ct, by = self.body(o)
             level = op[3] if len(op) > 3 else None
             out = self.send(mk_req("POST", [TOP[kind]], self.acc(), ct, {"p": "obj", "o": o}, by, level=level))
@@ -990,6 +1035,8 @@ class OracleRun:
                 return None
             if out[1] != 204:
                 return self.fail(f"http:PUT:{kind}:not-204", f"PUT {kind} {i!r} answered {out[1]}", out, 204)
+            if kind == "sm" and nested_kind_clash(self.ref.m[i]["root"], o["root"]):
+                self.clashed.add(i)
             self.ref.m[i] = copy.deepcopy(o)
             return None
         if k == "delete":
@@ -1019,9 +1066,11 @@ class OracleRun:
                 out = self.send(mk_req("PUT", segs, self.acc(), ct, {"p": "elem", "e": e}, by))
             else:
                 out = self.send(mk_req("DELETE", segs, self.acc()))
-            if out[0] != "resp":
-                return self.fail(f"http:{k}:crash", f"{k} raised {out[1]}", out)
             target = find_elem(sm["root"], path) if sm else None
+            if out[0] != "resp":
+                if k == "elem-replace" and target is not None and nested_kind_clash(target, e):
+                    return self.fail("http:PUT:nested-class-change", f"PUT element changing the class of a nested element raised {out[1]}", out)
+                return self.fail(f"http:{k}:crash", f"{k} raised {out[1]}", out)
             if sm is None or target is None:
                 if not 400 <= out[1] < 500:
                     return self.fail(f"http:{k}:unknown-not-4xx", f"{k} on an unknown submodel/element answered {out[1]}", out, "404")
@@ -1060,6 +1109,8 @@ class OracleRun:
                 return None
             if out[1] != 204:
                 return self.fail("http:elem-replace:not-204", f"PUT element answered {out[1]}", out, 204)
+            if nested_kind_clash(target, e):
+                self.clashed.add(i)
             parent["ch"] = [copy.deepcopy(e) if c["ids"] == path[-1] else c for c in parent["ch"]]
             return None
         raise ValueError(op)
@@ -1091,6 +1142,15 @@ def gen_semantic_ops(rng: random.Random, n: int, allow_known: bool) -> List[List
     return ops
 
 
+def zero_quals(o):
+    """the object with every qualifier value replaced by 0 (to recognise 'differs in qualifier values only')"""
+    if isinstance(o, dict):
+        return {k: ([[t, 0] for t, _ in v] if k == "q" else zero_quals(v)) for k, v in o.items()}
+    if isinstance(o, list):
+        return [zero_quals(x) for x in o]
+    return o
+
+
 def strip_quals(o):
     if isinstance(o, dict):
         return {k: ([] if k == "q" else strip_quals(v)) for k, v in o.items()}
@@ -1099,12 +1159,12 @@ def strip_quals(o):
     return o
 
 
-def run_semantic(ops: List[List[Any]], file_backed: bool, seed: Any) -> Optional[C.Failing]:
+def run_semantic(ops: List[List[Any]], file_backed: bool, seed: Any, sweep: bool = True) -> Optional[C.Failing]:
     run = OracleRun(file_backed, random.Random(f"sem:{seed}"))
     try:
         for op in ops:
             f = run.op(copy.deepcopy(op))
-            if f is None:
+            if f is None and sweep:
                 f = run.sweep()
             if f is not None:
                 f.case = {"kind": "semantic", "mode": "file" if file_backed else "dict", "ops": ops[: ops.index(op) + 1], "seed": str(seed)}
@@ -1118,7 +1178,7 @@ def oracle(ctx: C.Ctx, cov: C.Coverage) -> List[C.Failing]:
     rng = random.Random(f"C10-oracle:{ctx.seed}")
     out: List[C.Failing] = []
     sigs = set()
-    n = ctx.budget(40, 600)
+    n = ctx.budget(120, 1500)
     for hi in range(n):
         ops = gen_semantic_ops(rng, rng.randint(3, 10), True)
         fb = hi % 5 == 4
@@ -1150,7 +1210,7 @@ def search(ctx: C.Ctx, disagreements, broken) -> List[C.Failing]:
 
 def replay(case) -> Optional[C.Failing]:
     if case.get("kind") == "semantic":
-        return run_semantic(case["ops"], case.get("mode") == "file", case.get("seed", 0))
+        return run_semantic(case["ops"], case.get("mode") == "file", case.get("seed", 0), case.get("sweep", True))
     from props import c11
     return c11.check_history(case["reqs"], case.get("mode") == "file")
 
